@@ -134,3 +134,15 @@ harness!(name=c20_mat_rq_11_rm, prop=C20, mode=R, kind=normal, tier=quick, unwin
 harness!(name=c20_mat_rq_12_m, prop=C20, mode=R, kind=normal, tier=quick, unwind=20, { mat::<1, 2>(true, 2) });
 harness!(name=c20_mat_rq_21_v, prop=C20, mode=R, kind=normal, tier=quick, unwind=20, { mat::<2, 1>(true, 0) });
 harness!(name=c20_mat_rq_32_rv, prop=C20, mode=R, kind=normal, tier=thorough, unwind=20, { mat::<3, 2>(true, 1) });
+// every (kernel, argument form) pair on non-square point sets (2 x 3 and 3 x 2): a transposed index or a wrong dimension
+// in one of the eight `forward` implementations shows up only when NX != NY and both exceed 1
+harness!(name=c20_mat_rbf_23_v, prop=C20, mode=R, kind=normal, tier=quick, unwind=20, { mat::<2, 3>(false, 0) });
+harness!(name=c20_mat_rbf_32_rv, prop=C20, mode=R, kind=normal, tier=quick, unwind=20, { mat::<3, 2>(false, 1) });
+harness!(name=c20_mat_rbf_23_m, prop=C20, mode=R, kind=normal, tier=quick, unwind=20, { mat::<2, 3>(false, 2) });
+harness!(name=c20_mat_rbf_32_rm, prop=C20, mode=R, kind=normal, tier=quick, unwind=20, { mat::<3, 2>(false, 3) });
+harness!(name=c20_mat_rq_32_v, prop=C20, mode=R, kind=normal, tier=quick, unwind=20, { mat::<3, 2>(true, 0) });
+harness!(name=c20_mat_rq_23_rv, prop=C20, mode=R, kind=normal, tier=quick, unwind=20, { mat::<2, 3>(true, 1) });
+harness!(name=c20_mat_rq_32_m, prop=C20, mode=R, kind=normal, tier=quick, unwind=20, { mat::<3, 2>(true, 2) });
+harness!(name=c20_mat_rq_23_rm, prop=C20, mode=R, kind=normal, tier=quick, unwind=20, { mat::<2, 3>(true, 3) });
+harness!(name=c20_mat_rbf_33_m, prop=C20, mode=R, kind=normal, tier=thorough, unwind=20, { mat::<3, 3>(false, 2) });
+harness!(name=c20_mat_rq_33_rv, prop=C20, mode=R, kind=normal, tier=thorough, unwind=20, { mat::<3, 3>(true, 1) });
